@@ -9,6 +9,8 @@ A6 = "A6 parametricity: the generic (de)serializer touches its reader/writer/chi
 A7 = "A7 machine integers are CBMC bit-vectors on a 64-bit target (exact); Verus lemmas use int/nat with explicit range hypotheses"
 A8 = "A8 Kani 0.68 MIR->goto translation, CBMC 6.11 + CaDiCaL, Verus 0.2026.09.13 + Z3, and the engine scripts are trusted"
 A9 = "A9 default cargo features only (deflate), as the pinned test command builds"
+A11 = "A11 read_decimal on the paths that enter rust_decimal is not under contract: where a caller's routing to it is the obligation (ignored decimal over fixed) its contract 'reads exactly the decimal's own bytes' is ASSUMED (discharged only on the integer-hinted scale-0 path)"
+A12 = "A12 the Verus lemma units (block_partition, record_order, reader_trace, writer_history) are lemmas over the step contracts as written in their headers; the correspondence between each abstract step and the Kani postconditions it quotes is by reading, not mechanical"
 
 PROPS = {
     "C01": {
@@ -61,7 +63,7 @@ PROPS = {
                       "read_block_len and BlockReader::has_more are proved as inductive one-step contracts from an ARBITRARY reader state, so any number of blocks "
                       "in positive- or negative-count form is covered; a bounded end-to-end harness ties the step function to the real SeqAccess.",
         "level_note": "UTF-8 validation delegates to core::str::from_utf8 (trusted std, A1); lengths of strings/arrays in end-to-end harnesses bounded and labelled; A4 A6 A8.",
-        "assumptions": [A1, A3, A4, A6, A7, A8],
+        "assumptions": [A1, A3, A4, A6, A7, A8, A12],
         "explanation": "Functions under contract: SliceRead::read_varint/read_slice/read_const_size_buf, read_bool, read_len/read_length_delimited, read_discriminant, "
                        "read_enum_as_str, read_union_discriminant, deserialize_option, read_block_len, BlockReader::has_more, ArraySeqAccess, read_decimal (integer-hinted scale-0 path; rust_decimal entry shut by a frame obligation).",
         "not_decided": ["over-long (non-minimal) varints are accepted for in-range values: the property's list of invalid inputs does not include them",
@@ -123,7 +125,7 @@ PROPS = {
                       "logical int/long types; bounded for length-delimited kinds; the size-prefixed block jump of read_block_len(ignored) and skip_bytes are step contracts.",
         "level_note": "Arrays/maps: the skip loop is verified for <= 2 size-prefixed blocks per call with one-byte headers (bounded, labelled) plus the hostile-size contract; "
                       "union branch ignored through unit_variant delegates to deserialize_ignored_any of the branch node (covered per kind). A1 A4 A6 A8.",
-        "assumptions": [A1, A4, A6, A7, A8],
+        "assumptions": [A1, A4, A6, A7, A8, A11],
         "explanation": "Harnesses: c12_skip_varint_nodes, c12_skip_fixed_size_nodes, c12_skip_length_delimited_nodes, c12_read_block_len_ignored_step, c04_read_block_len_ignored_hostile_size, "
                        "c12_skip_bytes_slice, c11_skip_bytes, c11_varint_u64/u32 (reader/slice equivalence of the skip decoders).",
         "not_decided": ["nested containers skipped element-wise end-to-end (composition of the per-kind contracts)", "more than two size-prefixed blocks per skip call"],
@@ -139,7 +141,7 @@ PROPS = {
                       "buffer and count untouched for a failed value. Histories of any length follow by induction - machine-checked as the Verus lemma writer_history over the step contracts abstracted to values (sink blocks ++ open block == the successfully serialized values, in order, once; after a flush / into_inner / drop the file holds all of them); only the open buffer's byte length is bounded (<= 3), labelled.",
         "level_note": "Null codec only (compression is external, C05); Writer states are constructed directly (header writing by build() goes through serde flatten + serde_json and is a "
                       "bounded C06 obligation when tractable); sink = Vec<u8>; Schema via the static-node constructor; A1 A4 A8.",
-        "assumptions": [A1, A4, A7, A8, A9],
+        "assumptions": [A1, A4, A7, A8, A9, A12],
         "explanation": "Ghost view: sink, open block (count, bytes), pending. wf: count == 0 => buffer empty, nothing pending. Functions under contract: Writer::{serialize, "
                        "push_serialized, finish_block, flush_finished_block, into_inner, drop}, WriterInner::{serialize, push_serialized, finish_block, compressed_block}.",
         "not_decided": ["compressed codecs (external libraries, C05)", "open buffers longer than 3 bytes (the code has no length-dependent logic besides the >= approx_block_size test, which is symbolic)",
@@ -176,7 +178,7 @@ PROPS = {
         "level_note": "Null codec only (the deflate arm is shut by two frame obligations: inflate state never constructed, inflate never entered); compressed codecs and the snappy CRC are external (C05); the reader is constructed past the "
                       "file header (header parsing is serde_json, out of reach). The datum decoder inside a block is abstracted (its contracts are C03): payload consumption is represented by the consumed/unconsumed parameter of the "
                       "leave-block steps. The composition of the transitions over a whole damaged file (prefix-only) is argued in DESIGN.md, not machine-checked; the whole-file harnesses do not finish (attic). A1 A4 A8 A9.",
-        "assumptions": [A1, A4, A6, A7, A8, A9],
+        "assumptions": [A1, A4, A6, A7, A8, A9, A12],
         "explanation": "Harnesses: c17_not_in_block_step, c17_in_block_value_step_{last,max}, c17_leave_block_step_{empty_block,consumed_block,data_left}, c17_broken_and_eof_latches, c17_slice_take_contract, "
                        "c17_reader_take_contract. Every framing error path of deserialize_next_inner ends in a state where the latch is set; the latch contract then gives 'reported once, then end of stream'.",
         "not_decided": ["whole damaged files end-to-end (every truncation offset through successive calls): attic, does not finish; covered per transition",
@@ -213,7 +215,7 @@ PROPS["C13"] = {
                   "from any state shape and re-establishes the invariant, any presentation order of the three fields is covered. end(): only the missing-required-field error paths are discharged.",
     "level_note": "The name->index step field_idx is HashMap-based and NOT under contract (A2): the step takes the index it would yield. end()'s Ok paths (omitted nullable field encoded as null, "
                   "remaining buffers flushed) exceed 24 GB of solver memory and are not decided; records with more than 3 fields, nested records, the SerializeMap presentation are not covered. A1 A2 A4 A8 A10.",
-    "assumptions": [A1, A2, A4, A7, A8],
+    "assumptions": [A1, A2, A4, A7, A8, A12],
     "explanation": "Invariant INV of RecordState: current_idx <= n, expected_fields == fields[current_idx..], buffers[i] is None for i <= current_idx. 17 step harnesses + 2 zero-length-encoding step harnesses + 2 end() error-path harnesses; "
                    "each asserts INV afterwards and that every buffer returned to the pool is empty.",
     "not_decided": ["field_idx (name lookup; unknown / duplicate detection by name)", "end(): omitted null / union-with-null fields encoded as the null branch; flushing of remaining buffers on the Ok path",
